@@ -145,6 +145,10 @@ void harness (void)
 #else
 #define VF_OOM_CHECK() do { } while (0)
 #endif
+#ifdef PREFILL
+  /* a getter has run since the last edit: the field-position cache is filled (the state in which a stale cache entry can survive an edit) */
+  { const DBusString *ps_; int pp_; (void) _dbus_header_get_field_raw (&h, DBUS_HEADER_FIELD_PATH, &ps_, &pp_); }
+#endif
   /* ---- the edit, on the real code and on the model */
 #if OP == 0
   ok = _dbus_header_remove_unknown_fields (&h);
